@@ -18,6 +18,7 @@ pub mod c13;
 pub mod c14;
 pub mod c16;
 pub mod c17;
+pub mod c19;
 pub mod ctxgen;
 pub mod hirsample;
 pub mod inputgen;
